@@ -9,8 +9,10 @@ NEAR = "y" * 19          # longest string that still is a literal
 KINDS_FULL = [
     "absent", "null", "bool", "int", "float", "s_abc", "s_xyz", "s_int", "s_float", "s_bool", "s_long", "s_empty",
     "l_empty", "l_null", "l_int", "l_int_str", "l_objs", "l_lists", "o_empty", "o_k", "o_kj", "l_obj_xy", "l_objs_xy_x",
+    "s_bool_pad", "s_int_pad",
 ]
 KINDS_INTERACT = ["absent", "null", "int", "s_abc", "s_int", "s_float", "s_bool", "l_empty", "l_null"]
+KINDS_PAD = ["absent", "s_bool", "s_bool_pad", "s_False_nl", "s_int", "s_int_pad", "s_float_pad", "s_True", "s_abc"]
 KINDS_DATE = ["s_date", "s_time", "s_datetime", "s_int", "s_abc", "null"]
 KINDS_SMALL = ["absent", "null", "int", "float", "s_abc", "s_int", "l_empty", "l_int", "o_k", "l_objs"]
 KINDS_LIT = ["absent", "null", "s_abc", "s_xyz", "s_near", "s_long", "s_uni", "s_esc", "s_int", "l_strs15", "l_strs16", "l_rep16",
@@ -18,13 +20,15 @@ KINDS_LIT = ["absent", "null", "s_abc", "s_xyz", "s_near", "s_long", "s_uni", "s
 KINDS_LITM = ["o_tags8a", "o_tags8b", "o_tags_rep", "o_tag_uni", "o_k"]
 KINDS_SAMESTR = ["absent", "null", "s_abc", "s_xyz", "l_strs_ab", "o_same"]
 KINDS_ORDER = ["absent", "null", "int", "float", "bool", "s_abc", "l_int", "o_k", "l_mixed_ref_int", "l_mixed_ref_str"]
+# objects for the dict-keys options and objects that differ only in a leaf two levels down
+KINDS_ORDER2 = ["absent", "o_digits", "o_digits_mixed", "o_deep_int", "o_deep_str", "o_deep_null", "s_abc"]
 KINDS_DBG = ["int", "float"]
 KINDS_NEST = ["absent", "null", "o_k", "o_kj", "l_objs", "l_obj_xy", "l_objs_xy_x", "o_xy", "o_xyz", "l_empty", "o_empty", "s_abc",
               "o_parent1", "o_parent2", "l_objs_xys_x"]
 
 ATOMS = {"s_abc": "abc", "s_xyz": "xyz", "s_int": "12", "s_float": "1.5", "s_bool": "true", "s_long": LONG, "s_empty": "",
          "s_date": "2020-01-02", "s_time": "11:22:33", "s_datetime": "2020-01-02T11:22:33", "s_near": NEAR, "s_int2": "-7",
-         "s_nan": "nan", "s_True": "True", "s_uni": "\u041c\u043e\u0441\u043a\u0432\u0430 \u041a\u0438\u0457\u0432",
+         "s_nan": "nan", "s_True": "True", "s_bool_pad": " true", "s_int_pad": " 12\n", "s_float_pad": "\t1.5 ", "s_False_nl": "False\n", "s_uni": "\u041c\u043e\u0441\u043a\u0432\u0430 \u041a\u0438\u0457\u0432",
          "s_esc": '"' * 6 + "\\" * 5 + "\t\n"}
 STRS16 = [f"v{i:02d}" for i in range(16)]
 
@@ -53,6 +57,16 @@ def build(ch, tag, kind, sym=False):
         return [{"ref": leaf(ch, tag + "[0].ref", "int", sym)}, leaf(ch, tag + "[1]", "int", sym)]
     if kind == "l_mixed_ref_str":
         return [{"ref": "n/a"}, leaf(ch, tag + "[1]", "int", sym)]
+    if kind == "o_digits":
+        return {"2019": leaf(ch, tag + ".2019", "float", sym), "2020": leaf(ch, tag + ".2020", "float", sym)}
+    if kind == "o_digits_mixed":
+        return {"2019": leaf(ch, tag + ".2019", "float", sym), "total": leaf(ch, tag + ".total", "float", sym)}
+    if kind == "o_deep_int":
+        return {"o": {"i": {"age": leaf(ch, tag + ".age", "int", sym)}, "k": "v"}, "n": 1}
+    if kind == "o_deep_str":
+        return {"o": {"i": {"age": "unknown"}, "k": "v"}, "n": 1}
+    if kind == "o_deep_null":
+        return {"o": {"i": {"age": None}, "k": "v"}, "n": 1}
     if kind == "l_strs_ab":
         return ["abc", "xyz"]
     if kind == "o_same":
@@ -118,7 +132,7 @@ def build(ch, tag, kind, sym=False):
 def sample(ch, tag, kinds_by_key, sym=False, fixed=True):
     obj = {}
     if fixed:
-        obj["fix"] = leaf(ch, tag + ".fix", "int", sym)
+        obj["fix"] = leaf(ch, tag + ".fix", "int", sym) if ch is not None or not sym else 7
     for key, kind in kinds_by_key.items():
         v = build(ch, f"{tag}.{key}", kind, sym)
         if v is not ABSENT:
